@@ -17,11 +17,9 @@ class PlanJoinTSPredictorQuery:
     def __init__(self, planner):
         self.planner = planner
 
-    def adapt_dbt_query(self, query, integration):
+    def adapt_dbt_query(self, query, join_left, integration):
+        # join_left: the sub-select that is joined with the predictor (on either side of the join)
         orig_query = query
-
-        join = query.from_table
-        join_left = join.left
 
         # dbt query.
 
@@ -132,7 +130,7 @@ class PlanJoinTSPredictorQuery:
         orig_query = query
         # dbt query?
         if isinstance(join_left, Select) and isinstance(join_left.from_table, Identifier):
-            query, join_left = self.adapt_dbt_query(query, integration)
+            query, join_left = self.adapt_dbt_query(query, join_left, integration)
 
         if not isinstance(join_left, (Identifier, NativeQuery)):
             # a join, a sub-select that is not a plain select from a table, injected data
